@@ -41,7 +41,7 @@ Section sim.
     intros lb I sa sb x HA HP HD HI (A & P & D). split; [|split].
     - eapply Pact_transfer; eauto.
     - eapply Pplain_transfer; eauto.
-    - eapply Idep_transfer; [|exact D]. intros ch k b olds HK Hdp. exists olds. rewrite <- HD by auto. split; auto. now rewrite HI.
+    - eapply Idep_transfer; [|exact D]. intros ch k b olds HK Hdp. exists olds. rewrite <- HD by auto. split; auto. split; auto. now rewrite HI.
   Qed.
 
   (* two consecutive translations of the same body leave the same summary *)
@@ -89,7 +89,7 @@ Section sim.
         - intros ch v Hv. destruct (UP ch v Hv) as (v1 & E & Q1). destruct (P ch v1 E) as (r & R1 & R2). exists r. split; auto.
           rewrite R2. exact Q1.
         - intros ch k b olds HK Hdp. destruct (UD (ch, k) b olds Hdp) as (b1 & E & Q1).
-          destruct (D ch k b1 olds HK E) as (r & R1 & R2). exists r. split; auto. intros fs Hf Hk.
+          destruct (D ch k b1 olds HK E) as (r & R1 & R0 & R2). exists r. split; auto. split; [exact R0|]. intros fs Hf Hk.
           rewrite (R2 fs Hf Hk), SI1. apply aff_at_compat. exact Q1. }
       set (Pinv := fun (k : nat) (x : vm) =>
              length (v_cur x) = C /\ (k = 0%nat -> Inv3 lb I st x) /\ (k <> 0%nat -> Inv3 lb I st1 x) /\
